@@ -8,7 +8,7 @@ from __future__ import annotations
 
 import random
 
-from .. import doccheck, editgen, engine_oracles, engine_run, gen, ooxml, sem
+from .. import canon_session, doccheck, editgen, engine_oracles, engine_run, gen, ooxml, sem
 
 PROFILE = {"hyperlink": 0.0, "vmerge": 0.0, "point_comment": 0.0}
 PROFILES = {"default": PROFILE, "odd": PROFILE, "redlined": dict(PROFILE, **{"del": 0.3}, subst=0.2, ins=0.15, table=0.3, split_identical=0.4)}
@@ -39,13 +39,41 @@ def work(case):
                     edits.append({"target": t, "new": "Qzx heading", "kind": "odd_not_found", "comment": None, "locatable": False, "pi": -1, "a": -1, "b": -1})
         edits = edits[:8]
     r = engine_run.run_edits(data, edits)
+    # the locatable edits addressed by offset (conflicts included): the overlap filter of the indexed path
+    ix = [dict(e, index=texts["raw"].find(e["target"])) for e in edits if e.get("locatable") and e.get("in_raw")]
+    rix = engine_run.run_edits(data, ix) if ix else None
     case = dict(case, edits=edits)
     return {"case": case, "res": {k: v for k, v in r.items() if k != "out_bytes"},
+            "indexed": {"edits": ix, "res": {k: v for k, v in rix.items() if k != "out_bytes"}} if rix else None,
             "sample": {"edits": [(e["target"][:30], e["new"][:30], e["kind"]) for e in edits]}}
 
 
 def oracle(res):
     return engine_oracles.oracle_accounting(res["case"]["doc"], res["case"]["edits"], res["res"])
+
+
+def driver_line(res):
+    ix = res.get("indexed")
+    if not ix:
+        return {"op": "ping"}
+    return {"op": "apply_indexed", "doc": res["case"]["doc"], "author": engine_oracles.SESSION_AUTHOR,
+            "edits": [{"index": e["index"], "target": e["target"], "new": e["new"], "comment": e.get("comment")} for e in ix["edits"]]}
+
+
+def compare(res, out):
+    ix = res.get("indexed")
+    if not ix:
+        return []
+    name = "apply_edits(indexed, conflicting) vs Adeu.Doc.applyEditsIndexed"
+    if "err" in out:
+        return [("driver", out["err"])]
+    r = ix["res"]
+    if r["err"]:
+        return [(name, f"implementation raised {r['err']}")]
+    if (out["applied"], out["skipped"]) != (r["applied"], r["skipped"]):
+        return [(name, f"counts: model {(out['applied'], out['skipped'])} implementation {(r['applied'], r['skipped'])}")]
+    d = canon_session.diff_docs(out["doc"], canon_session.canon_out(r["out_doc"], res["case"]["doc"], engine_oracles.SESSION_AUTHOR))
+    return [(name, d)] if d else []
 
 
 def classify(res):
@@ -71,7 +99,7 @@ def run(tier, seed, driver_ok):
     return doccheck.run_doc_check(
         "C08", tier, seed, driver_ok, n_quick=450, n_thorough=8000,
         profiles=[("default", PROFILES["default"], 2), ("redlined", PROFILES["redlined"], 2), ("odd", PROFILES["default"], 1)],
-        work=work, oracle=oracle, classify=classify, nontrivial=nontrivial,
+        work=work, oracle=oracle, classify=classify, driver_line=driver_line, compare=compare, nontrivial=nontrivial,
         rule="seeded generated documents x batches mixing locatable edits with duplicate, overlapping, nested, "
              "inside-deleted-text, not-found, empty-target edits (shuffled), plus a stream with XML-compatible odd "
              "characters; non-trivial = distinct batch with >= 2 edits of which at least one conflicts or is unlocatable",
